@@ -266,12 +266,21 @@ def exec_cache(trace, prop) -> Result:
     def words_in_set(idx):
         return [wa for wa in touched if set_of(wa) == idx]
 
-    def c12_check(i, idxs):
+    def c12_check(i, idxs, around=None):
+        """`around`: address of the access just made.  Histories over hundreds of different words (wide marathons) are
+        swept completely every 40 operations and at the end; in between only the block just accessed is looked at (a lost
+        or stale value stays lost until it is overwritten, so it is found a few operations later)."""
         rw = {}
         for idx in idxs:
             rw.update(resident_words(sut, idx))
+        partial = around is not None and len(touched) > 300 and i % 40 != 0
         for idx in idxs:
-            for wa in words_in_set(idx):
+            if partial:
+                lo = (around & MASK32) - ((around & MASK32) % block_bytes)
+                words = [wa for wa in range(lo, lo + block_bytes, 4) if wa in touched]
+            else:
+                words = words_in_set(idx)
+            for wa in words:
                 back = backing_word(sut, wa)
                 want = model.read(wa, 4)
                 if cfg["kind"] == "wt":
@@ -491,7 +500,7 @@ def exec_cache(trace, prop) -> Result:
                     for j in range(op[1]):
                         touched.add(((a + j) & MASK32) & ~3)
                 aff = {set_of(a), set_of((a + op[1] - 1) & MASK32)}
-                if not c12_check(i, aff):
+                if not c12_check(i, aff, around=a):
                     break
             elif kind == "INSPECT" and status == "ok":
                 rep = value[0]
